@@ -136,6 +136,8 @@ func remoteRegistry(ctx context.Context, r *lib.Run) {
 				ann := map[string]string{"io.cncf.notary.x509chain.thumbprint#S256": fmt.Sprintf(`["%d"]`, op), "k": fmt.Sprint(op)}
 				if rng.Intn(4) == 0 {
 					ann = nil
+				} else if rng.Intn(3) == 0 {
+					ann["org.example.reviewed"] = ""
 				}
 				bd, man, err := repo.PushSignature(ctx, mt, blob, sub, ann)
 				trace = append(trace, fmt.Sprintf("PushSignature(%s, %d bytes, subject#%d) -> %v", mt, len(blob), si, err))
@@ -241,7 +243,7 @@ func remoteRegistry(ctx context.Context, r *lib.Run) {
 					r.Violation(map[string]string{"kind": "fetch", "store": "registry"}, fmt.Sprintf("FetchSignatureBlob over a registry: err=%v, %d bytes of type %s; pushed %d bytes of type %s", ferr, len(blob), bd.MediaType, len(p.Blob), p.MT), wit())
 				}
 				for k, v := range p.Ann {
-					if md.Annotations[k] != v {
+					if got, present := md.Annotations[k]; !present || got != v {
 						r.Violation(map[string]string{"kind": "annotations", "store": "registry"}, fmt.Sprintf("pushed annotation %s=%s is not on the listed manifest (%v)", k, v, md.Annotations), wit())
 					}
 				}
@@ -328,6 +330,9 @@ func main() {
 				ann := map[string]string{"io.cncf.notary.x509chain.thumbprint#S256": fmt.Sprintf("[\"%d\"]", op), "k": fmt.Sprint(op)}
 				if rng.Intn(4) == 0 {
 					ann = nil
+				}
+				if ann != nil && rng.Intn(3) == 0 {
+					ann["org.example.reviewed"] = "" // an annotation with an empty value is an annotation that was pushed
 				}
 				if ann != nil && rng.Intn(4) == 0 {
 					// the caller states the creation time itself, with a zone offset and fractions: an annotation like any other
@@ -662,7 +667,7 @@ func main() {
 						r.Violation(map[string]string{"kind": "fetch"}, fmt.Sprintf("FetchSignatureBlob: err=%v, %d bytes of type %s; pushed %d bytes of type %s", ferr, len(blob), bd.MediaType, len(p.Blob), p.MT), wit)
 					}
 					for k, v := range p.Ann {
-						if md.Annotations[k] != v {
+						if got, present := md.Annotations[k]; !present || got != v {
 							r.Violation(map[string]string{"kind": "annotations"}, fmt.Sprintf("pushed annotation %s=%s is not on the listed manifest (%v)", k, v, md.Annotations), wit)
 						}
 					}
